@@ -43,6 +43,7 @@ FAMILIES = {
     'newline': ['a', 'a\n', 'a\n\n', '\na', 'a\r', 'a\r\n', 'a '],
     'astral': ['\U0001F600', '\U0001F601', '\U0001F600\U0001F600', 'a\U0001F600b'],
     'illformed': ['\ud83d', '\ude00', 'a\ud83db', '\ude00\ud83d', 'ab\udc00'],
+    'hash': ['Aa', 'BB', 'AaAa', 'BBBB', 'AaBB', 'BBAa', 'C#'],     # equal length, equal 31-multiplier hash (qHash, seed 0)
     'plain': ['a', 'b', 'ab', 'ba', 'aab', 'abab', 'x', 'hello world', 'a1', '0', 'zz9'],
 }
 
